@@ -1850,6 +1850,10 @@ func c26RunTests() []c26Seed {
 // that need the repository's test harness (its exec handler, its helper binaries, a terminal).
 var c26Nondet = regexp.MustCompile(`\$\$|\$!|RANDOM|PPID|SECONDS|BASHPID|EPOCH|SRANDOM|\bdate\b|\btime\b|\btimes\b|\bsleep\b|&\s*($|[^&>|\s])|[^&|>]&$|\bwait\b|\bjobs\b|\bkill\b|\bbg\b|\bfg\b|GOSH_|ENV_PROG|INTERP_|\bpwd\b|PWD|HOME|~|/tmp|mktemp|TMPDIR|\$0|\$_|LINENO|BASH|FUNCNAME|\bcaller\b|\bhistory\b|\bselect\b|\bumask\b|\bulimit\b|\btype\b|\bcommand\b|\bwhich\b|\bhash\b|\bhelp\b|\buname\b|HOSTNAME|\bhostname\b|\bwhoami\b|\bid\b|GROUPS|UID|\bGID\b|\btty\b|/dev/|/proc|/etc|/usr|/bin|\bls\b|\bstat\b|\bfind\b|\benv\b|export -p|declare -p|\bdeclare$|\bset$|set [-+]o$|\bshopt\b|\btrap$|\balias$|\$-|\bdirs\b|\bpushd\b|\bpopd\b|\bcd\b|\bexec\b|\bsource\b|(^|[;&|\s])\.\s|\bcoproc\b|<\(|>\(|\bread\b|\bmapfile\b|\breadarray\b|\bgetopts\b|OPTIND|\bprintenv\b|\bsh\b|\bbash\b|\bchmod\b|\bmkfifo\b|\bln\b|\bpid_and_hang\b|_interactive_only|\bbuiltin\b|\beval\b|\$\{!|\$@|\$\*|\$#|\$[1-9]|\bshift\b|\bset --|\blet\b`)
 
+// c26KnownRegion: seed programs inside the region of an open known finding that the mutations
+// cannot be kept away from otherwise (C26-cstyle-for-status, C26-local-naked).
+var c26KnownRegion = regexp.MustCompile(`for \(\(|\b(local|declare|typeset)( -[a-zA-Z]+)* [A-Za-z_][A-Za-z_0-9]*\s*(;|$|\n|\))`)
+
 type c26Mut struct {
 	seed int
 	text string // mutated program ("" for the original)
@@ -2036,6 +2040,10 @@ func c26Mutations(c *Ctx, _ string, workers int) {
 		}
 		if s.in == "" || c26Nondet.MatchString(s.in) {
 			c.Hist["repo-nondeterministic-or-harness-bound"]++
+			continue
+		}
+		if c26KnownRegion.MatchString(s.in) {
+			c.Hist["repo-known-finding-region"]++
 			continue
 		}
 		seeds = append(seeds, s)
